@@ -267,6 +267,52 @@ fn vc15_ext_append() { ext_set_get::<3, 5, 1>() }
 #[kani::unwind(12)]
 fn vc15_ext_append_edge() { ext_set_get::<14, 1, 3>() }
 
+/// two existing elements (ids A and B, 1 data byte each); set(S, NV bytes) where S is one of them or a third id:
+/// the property "setting one extension leaves the others intact" needs at least one *later* element to survive
+/// a replacement (seeded change C15-B: early exit of the rebuild loop after the replaced element).
+fn ext_two<const A: u8, const B: u8, const S: u8, const NV: usize>() {
+    let av: u8 = kani::any(); let bv: u8 = kani::any();
+    let mut h = RtpHeader::new(96, 1, 2, 3);
+    h.extension = Some(RtpHeaderExtension { profile: 0xBEDE, data: Bytes::copy_from_slice(&[(A << 4) | 0, av, (B << 4) | 0, bv]) });
+    let v: [u8; NV] = kani::any();
+    assert!(h.set_extension(S, &v).is_ok());
+    let got = h.get_extension(S);
+    assert!(got.is_some(), "value just set is not readable");
+    let got = got.unwrap();
+    assert!(got.len() == NV && same(&got[..], &v));
+    if S != A { let g = h.get_extension(A); assert!(g.is_some(), "earlier extension lost"); let g = g.unwrap(); assert!(g.len() == 1 && g[0] == av); leak(g); }
+    if S != B { let g = h.get_extension(B); assert!(g.is_some(), "later extension lost"); let g = g.unwrap(); assert!(g.len() == 1 && g[0] == bv); leak(g); }
+    let e = h.extension.as_ref().unwrap();
+    assert!(e.data.len() % 4 == 0 && e.profile == 0xBEDE);
+    assert!(h.validate().is_ok());
+    kani::cover!(v[0] == 0x7f, "value stored");
+    leak(got); leak(h);
+}
+
+// @h name=vc15_ext_replace_first_of_two tier=quick timeout=420
+// @fn RtpHeader::set_extension, RtpHeader::get_extension, RtpHeader::validate
+// @bound block = [id 3: a][id 7: b] (values symbolic); set(3, 2 symbolic bytes): first element replaced and grows
+// @oracle get(3) == new value, get(7) == b (later element intact), block aligned, header still valid
+#[kani::proof]
+#[kani::unwind(12)]
+fn vc15_ext_replace_first_of_two() { ext_two::<3, 7, 3, 2>() }
+
+// @h name=vc15_ext_replace_second_of_two tier=thorough timeout=600
+// @fn RtpHeader::set_extension, RtpHeader::get_extension
+// @bound block = [id 3: a][id 7: b]; set(7, 1 symbolic byte)
+// @oracle get(7) == new value, get(3) == a
+#[kani::proof]
+#[kani::unwind(12)]
+fn vc15_ext_replace_second_of_two() { ext_two::<3, 7, 7, 1>() }
+
+// @h name=vc15_ext_append_third tier=thorough timeout=600
+// @fn RtpHeader::set_extension, RtpHeader::get_extension
+// @bound block = [id 3: a][id 7: b]; set(9, 2 symbolic bytes): appended as third element
+// @oracle all three readable
+#[kani::proof]
+#[kani::unwind(12)]
+fn vc15_ext_append_third() { ext_two::<3, 7, 9, 2>() }
+
 fn ext_reject<const ID: u8, const N: usize>() {
     let av: u8 = kani::any();
     let mut h = RtpHeader::new(96, 1, 2, 3);
